@@ -53,7 +53,7 @@ ALL = {
  'C39': (E2, T_E2, 'All program trees of nested foreach/while/if/function with conditional break/continue/return (<=2 loops, <=3 statements per body); output and exit compared with a reference interpreter of the fragment.', 'fragment as listed'),
 }
 # properties whose check is built, green and merged into cmd/vh or cmd/vhs
-READY = ['C01','C02','C03','C04','C05','C06','C07','C13','C16','C17','C18','C20','C22','C23','C24','C26','C28','C31','C32','C36','C37','C39']
+READY = sorted(ALL.keys())
 CHECKS = {i: (ALL[i][0], ALL[i][1], ALL[i][2], ALL[i][3], '2/'+i) for i in READY}
 NA_REASON = {}
 
